@@ -91,6 +91,9 @@ func Cell(kind string, i, j int) any {
 // {"t": table, "u": 1}.
 func Tables(small, nested bool, fn func(t any) bool) {
 	cols := []string{"a", "b", "c"}
+	// the same columns under names that a writer has to quote or escape (and
+	// that sort differently once encoded): 2-row object tables only
+	quoted := []string{"a", "b c", "c\"d"}
 	emit := func(tbl []any) bool {
 		if !fn(tbl) {
 			return false
@@ -119,6 +122,21 @@ func Tables(small, nested bool, fn func(t any) bool) {
 					}
 					if !emit(tbl) {
 						return
+					}
+					if rows == 2 && nc >= 2 {
+						q := make([]any, rows)
+						for i, r := range tbl {
+							row := map[string]any{}
+							for j := 0; j < nc; j++ {
+								if v, has := r.(map[string]any)[cols[j]]; has {
+									row[quoted[j]] = v
+								}
+							}
+							q[i] = row
+						}
+						if !emit(q) {
+							return
+						}
 					}
 				}
 			}
